@@ -160,8 +160,15 @@ def gen_valid(rng):
     ar_doc, ar_vb = Fraction(doc_h) / Fraction(doc_w), Fraction(h) / Fraction(w)
     rel = "ar_doc<ar_vb" if ar_doc < ar_vb else ("ar_doc==ar_vb" if ar_doc == ar_vb else "ar_doc>ar_vb")
     near = ar_doc != ar_vb and abs(ar_doc / ar_vb - 1) < Fraction(1, 1000)
-    sep = rng.choice((" ", ",", ", ", "  ", " , ", "\t", "\n "))
-    vb_text = sep.join(fnum(rng, v) for v in (min_x, min_y, w, h))
+    seps = (" ", ",", ", ", "  ", " , ", "\t", "\n ", " ,")
+    nums = [fnum(rng, v) for v in (min_x, min_y, w, h)]
+    if rng.random() < 0.35:
+        # SVG 1.1: the four numbers are "separated by whitespace and/or a comma" - per gap, so
+        # "0,0 100,100" (pair notation) and "0 0 100,50" are as valid as one style throughout
+        gaps = [rng.choice(seps) for _ in range(3)]
+        vb_text = nums[0] + gaps[0] + nums[1] + gaps[1] + nums[2] + gaps[2] + nums[3]
+    else:
+        vb_text = rng.choice(seps).join(nums)
     if rng.random() < 0.3:
         vb_text = rng.choice((" ", "\n", "  ")) + vb_text + rng.choice((" ", "\t", ""))
     c = rng.random()
@@ -238,6 +245,9 @@ def run(ctx):
     n = ctx.budget(50_000, 1_000_000)
     done = 0
     while done < n and ctx.alive():
+        if rng.random() < 0.004:
+            from .. import noise
+            noise.burst(ctx, rng, exclude=('viewbox',))
         if rng.random() < 0.005:
             from ..gen_stepper import failed_call
             from plotink import plot_utils as _pu
@@ -257,6 +267,9 @@ def run(ctx):
                 classes.append("defer")
             if "," in vb_text:
                 classes.append("comma separators")
+                gaps_with_comma = vb_text.count(",")
+                if 0 < gaps_with_comma < 3:
+                    classes.append("separators: comma in some gaps, white space only in others")
             if near:
                 classes.append("aspect ratios differ by less than 1e-3 (but differ)")
             toks = vb_text.replace(",", " ").split()
@@ -310,8 +323,10 @@ def run(ctx):
     ctx.need("history: related arguments after a previous call", 1000)
     ctx.need("aspect ratios differ by less than 1e-3 (but differ)", 300)
     ctx.need("number without a leading zero", 100)
+    ctx.need("separators: comma in some gaps, white space only in others", 1000)
     ctx.need("number with an explicit plus", 100)
     ctx.need("monitor:vb_scale evaluated", 20_000)
+    ctx.need("history: after calls to other library functions", 100)
     contracts.uninstall_all()
 
 
